@@ -8,9 +8,14 @@ import Driver.SettersH
 import Driver.SerialH
 import Driver.CowH
 import Driver.ExprH
+import Driver.SimdH
+import Driver.CrtH
+import Driver.ConcH
+import Driver.GaussH
+import Driver.SamplersH
 namespace Driver
 
-def allHandlers : List (String × Handler) := opsHandlers ++ nttHandlers ++ nttHandlers2 ++ tabHandlers ++ salsaHandlers ++ rbHandlers ++ settersHandlers ++ serialHandlers ++ cowHandlers ++ exprHandlers
+def allHandlers : List (String × Handler) := opsHandlers ++ nttHandlers ++ nttHandlers2 ++ tabHandlers ++ salsaHandlers ++ rbHandlers ++ settersHandlers ++ serialHandlers ++ cowHandlers ++ exprHandlers ++ simdHandlers ++ crtHandlers ++ crtHandlers2 ++ concHandlers ++ gaussHandlers ++ samplersHandlers
 
 def findHandler (op : String) : Option Handler := (allHandlers.find? (·.1 == op)).map (·.2)
 
